@@ -704,6 +704,14 @@ impl Drv {
                         c[j] = tags[k].get(j - 2).copied().unwrap_or(b'0' + k as u8);
                     }
                 }
+                if matches!(self, Drv::Blk | Drv::Vsock) && k == 2 && c.len() >= 8 {
+                    // A-B-A in the upper half: the third configuration has the upper word of the first
+                    // again (and another lower word), so "re-read one half and compare" cannot stand in
+                    // for the generation check
+                    for j in 4..8 {
+                        c[j] = (0x10 + j + 1) as u8;
+                    }
+                }
                 c
             })
             .collect()
